@@ -12,7 +12,7 @@ Import ListNotations.
 Open Scope Z_scope.
 
 Inductive err :=
-| EAttr      (* AttributeError: an int voltage takes the SimpleExpression path in hold_voltage *)
+| EAttr      (* AttributeError (an int voltage used to take the SimpleExpression path; repaired, no longer produced) *)
 | EAssert    (* AssertionError in required_increment_from / _set_indexed_voltage *)
 | EKey       (* KeyError in the VM: increment of a register that was never set / jump to an unknown label *)
 | EIndex     (* IndexError: command channel outside the VM's channel list / transformation list *)
@@ -71,7 +71,7 @@ Fixpoint aff_walk (rs : list (Z * Z)) (coefs : list Q) (i : nat) (base : Q) (inc
 Definition build_volt (rs : list (Z * Z)) (v : volt) : res (Q * option (list Q)) :=
   match v with
   | VPlain q => Ok (q, None)
-  | VInt _ => Err EAttr
+  | VInt z => Ok (inject_Z z, None)           (* float(value) for every plain number *)
   | VAff base coefs => let '(b, incs) := aff_walk rs coefs 0%nat base [] in Ok (b, Some incs)
   end.
 
@@ -334,8 +334,10 @@ Fixpoint tr_node (n : node) (st : tstate) {struct n} : res (list cmd * tstate) :
                            end in
         Ok (CLabel idx count :: cs1 ++ [CJmp idx], with_stable st1 (t_stable st1 && stable))
       else
-        let? '(cs2, st2) := tr_list body st1 in
-        Ok (cs1 ++ CLabel idx (count - 1) :: cs2 ++ [CJmp idx], st2)
+        if 0 <? count - 1 then
+          let? '(cs2, st2) := tr_list body st1 in
+          Ok (cs1 ++ CLabel idx (count - 1) :: cs2 ++ [CJmp idx], st2)
+        else Ok (cs1, st1)              (* count 1: the unrolled first pass is the whole repetition *)
   | NIter body len =>
       let tr_list := (fix go (l : list node) (st : tstate) : res (list cmd * tstate) :=
                         match l with
